@@ -28,6 +28,8 @@ inductive Op where
   | refresh (id : String)
   /-- serialise the issuer and restore it -/
   | persist
+  /-- `RevocationRegistry::add` called directly on the issuer's public registry field -/
+  | add (ids : List String)
 deriving Repr, DecidableEq
 
 inductive Out (G : Type) where
@@ -41,6 +43,14 @@ def Out.isErr {G} : Out G → Bool
 
 /-- "this claim is already revoked" test of both issuance paths -/
 def alreadyRevoked (s : State G) (id : String) : Bool := !s.active.contains id && s.elements.contains id
+
+/-- one iteration of `RevocationRegistry::add`: an identifier never seen before becomes an element and
+active (`if self.elements.insert(e) { self.active.insert(e) }`); a known one — active or revoked — is left alone -/
+def addOne (s : State G) (e : String) : State G :=
+  if s.elements.contains e then s
+  else { s with elements := s.elements ++ [e], active := insertIfAbsent s.active e }
+
+def addAll (s : State G) (ids : List String) : State G := ids.foldl addOne s
 
 def step [Add F] [Mul F] [One F] [Inv F] [SMul F G] (h : String → F) (α : F) (s : State G) :
     Op → State G × Out G
@@ -58,6 +68,7 @@ def step [Add F] [Mul F] [One F] [Inv F] [SMul F G] (h : String → F) (α : F) 
   | .refresh id =>
     if s.active.contains id then (s, .handle (mwNew α (h id) s.value)) else (s, .err)
   | .persist => (s, .done)
+  | .add ids => (addAll s ids, .done)
 
 def run [Add F] [Mul F] [One F] [Inv F] [SMul F G] (h : String → F) (α : F) (s : State G) :
     List Op → State G
